@@ -25,10 +25,11 @@
 EXTENDS Naturals, Sequences, FiniteSets, TLC
 
 \* ---------------------------------------------------------------- wire values
-Wire == {"absent", "null", "t", "f", "i1", "i2", "i7", "f15", "f10", "s", "ds", "dts", "dt0", "us", "m1", "m2",
+\* i0 = 0 and se = "" are FALSY values that are members of the enums / valid scalars (a present falsy value is not "absent")
+Wire == {"absent", "null", "t", "f", "i0", "i1", "i2", "i7", "f15", "f10", "se", "s", "ds", "dts", "dt0", "us", "m1", "m2",
          "objv", "objw", "objvw", "obj0", "arr0", "arri", "arrd", "arro", "arrs"}
-JsonType(w) == CASE w = "null" -> "null" [] w \in {"t", "f"} -> "bool" [] w \in {"i1", "i2", "i7"} -> "int"
-                 [] w \in {"f15", "f10"} -> "float" [] w \in {"s", "ds", "dts", "dt0", "us", "m1", "m2"} -> "str"
+JsonType(w) == CASE w = "null" -> "null" [] w \in {"t", "f"} -> "bool" [] w \in {"i0", "i1", "i2", "i7"} -> "int"
+                 [] w \in {"f15", "f10"} -> "float" [] w \in {"se", "s", "ds", "dts", "dt0", "us", "m1", "m2"} -> "str"
                  [] w \in {"objv", "objw", "objvw", "obj0"} -> "dict" [] w \in {"arr0", "arri", "arrd", "arro", "arrs"} -> "list"
                  [] OTHER -> "absent"
 ItemsOf(w) == CASE w = "arr0" -> {} [] w = "arri" -> {"i1", "i2"} [] w = "arrd" -> {"ds"} [] w = "arro" -> {"objv"} [] w = "arrs" -> {"s"} [] OTHER -> {}
@@ -36,19 +37,20 @@ ItemsOf(w) == CASE w = "arr0" -> {} [] w = "arri" -> {"i1", "i2"} [] w = "arrd" 
 \* ---------------------------------------------------------------- kinds
 \* modelS: a STRICT model (required v, additionalProperties: false): only objv is valid, but from_dict also accepts objvw and
 \* silently drops the undeclared key
-LeafKinds == {"any", "bool", "int", "float", "str", "date", "datetime", "uuid", "enums", "enumi", "none", "modelM", "modelN", "modelS",
+\* modelO: an OPEN model without required properties: every object (also {}) is valid
+LeafKinds == {"any", "bool", "int", "float", "str", "date", "datetime", "uuid", "enums", "enumi", "none", "modelM", "modelN", "modelS", "modelO",
               "listint", "listdate", "listM"}
 InnerOf(k) == CASE k = "listint" -> "int" [] k = "listdate" -> "date" [] k = "listM" -> "modelM" [] OTHER -> "any"
 IsList(k) == k \in {"listint", "listdate", "listM"}
 \* property templates that define a `construct` macro / a `check_type_for_construct` macro / a `transform` macro
-HasConstruct(k) == k \in {"date", "datetime", "uuid", "enums", "enumi", "modelM", "modelN", "modelS", "listint", "listdate", "listM"}
+HasConstruct(k) == k \in {"date", "datetime", "uuid", "enums", "enumi", "modelM", "modelN", "modelS", "modelO", "listint", "listdate", "listM"}
 HasCheck(k) == HasConstruct(k)
 HasTransform(k) == HasConstruct(k)
 
 \* isinstance check emitted by check_type_for_construct (Python: bool is an int)
 TypeOk(k, w) == CASE k \in {"date", "datetime", "uuid", "enums"} -> JsonType(w) = "str"
                   [] k = "enumi" -> JsonType(w) \in {"int", "bool"}
-                  [] k \in {"modelM", "modelN", "modelS"} -> JsonType(w) = "dict"
+                  [] k \in {"modelM", "modelN", "modelS", "modelO"} -> JsonType(w) = "dict"
                   [] IsList(k) -> JsonType(w) = "list"
                   [] OTHER -> TRUE
 \* does the construct expression succeed on w (given the type check passed or was not made)?
@@ -56,11 +58,12 @@ RECURSIVE LeafConstructs(_, _)
 LeafConstructs(k, w) ==
   CASE k \in {"date", "datetime"} -> w \in {"ds", "dts", "dt0"}                 \* isoparse accepts both spellings
     [] k = "uuid" -> w = "us"
-    [] k = "enums" -> w \in {"m1", "m2"}
-    [] k = "enumi" -> w \in {"i1", "i2", "t", "f10"}                            \* IntEnum(True) = IntEnum(1.0) = member 1
+    [] k = "enums" -> w \in {"se", "m1", "m2"}
+    [] k = "enumi" -> w \in {"i0", "i1", "i2", "t", "f", "f10"}                 \* IntEnum(True) = IntEnum(1.0) = member 1, IntEnum(False) = member 0
     [] k = "modelM" -> w \in {"objv", "objvw"}                                  \* KeyError without the required key
     [] k = "modelN" -> w \in {"objw", "objvw"}
     [] k = "modelS" -> w \in {"objv", "objvw"}
+    [] k = "modelO" -> JsonType(w) = "dict" \/ w \in {"se", "arr0"}             \* dict("") = dict([]) = {}
     [] k = "listint" -> JsonType(w) = "list"                                    \* cast only
     [] k \in {"listdate", "listM"} -> JsonType(w) = "list" /\ \A x \in ItemsOf(w) : LeafConstructs(InnerOf(k), x)
     [] OTHER -> TRUE
@@ -70,10 +73,11 @@ LeafValue(k, w) ==
     [] k = "datetime" -> <<"datetime", IF w = "ds" THEN "dt0" ELSE w>>
     [] k = "uuid" -> <<"UUID", "us">>
     [] k = "enums" -> <<"EnumS", w>>
-    [] k = "enumi" -> <<"EnumI", IF w = "i2" THEN "i2" ELSE "i1">>
+    [] k = "enumi" -> <<"EnumI", IF w = "i2" THEN "i2" ELSE IF w \in {"i0", "f"} THEN "i0" ELSE "i1">>
     [] k = "modelM" -> <<"M", w>>
     [] k = "modelN" -> <<"N", w>>
     [] k = "modelS" -> <<"S", "objv">>                                           \* the undeclared key is dropped
+    [] k = "modelO" -> <<"O", IF w \in {"se", "arr0"} THEN "obj0" ELSE w>>
     [] k = "listint" -> <<"raw", w>>
     [] k \in {"listdate", "listM"} -> <<"list", w>>
     [] OTHER -> <<"raw", w>>
@@ -109,8 +113,8 @@ DecodeLeaf(d, w) ==
                         ELSE PyUnset)
   ELSE IF ~HasConstruct(k) THEN <<"raw", w>>                       \* stored as it came
   ELSE IF k = "listint" THEN <<"raw", w>>                          \* cast
-  ELSE IF IsList(k) THEN (IF ~d.req /\ w \in {"null", "f", "obj0"} THEN <<"list", "arr0">>     \* `falsy or []`
-                          ELSE IF w = "obj0" THEN <<"list", "arr0">>                          \* iterating an empty dict: no items
+  ELSE IF IsList(k) THEN (IF ~d.req /\ w \in {"null", "f", "obj0", "i0", "se"} THEN <<"list", "arr0">>     \* `falsy or []`
+                          ELSE IF w \in {"obj0", "se"} THEN <<"list", "arr0">>                  \* iterating an empty dict / string: no items
                           ELSE IF LeafConstructs(k, w) THEN LeafValue(k, w) ELSE Raise)
   ELSE IF LeafConstructs(k, w) THEN LeafValue(k, w) ELSE Raise
 
@@ -126,6 +130,7 @@ InstanceOf(py, k) ==
     [] k = "modelM" -> py[1] = "M"
     [] k = "modelN" -> py[1] = "N"
     [] k = "modelS" -> py[1] = "S"
+    [] k = "modelO" -> py[1] = "O"
     [] IsList(k) -> py[1] = "list" \/ (py[1] = "raw" /\ JsonType(py[2]) = "list")
     [] OTHER -> FALSE
 \* result of the member's transform applied to py: wire form, or "raise" (attribute error on a raw value)
@@ -156,18 +161,19 @@ EncodeAttr(d, py) ==
 ValidLeaf(k, w) ==
   CASE k = "any" -> w # "absent"
     [] k = "bool" -> w \in {"t", "f"}
-    [] k = "int" -> w \in {"i1", "i2", "i7"}
-    [] k = "float" -> w \in {"i1", "i2", "i7", "f15", "f10"}
+    [] k = "int" -> w \in {"i0", "i1", "i2", "i7"}
+    [] k = "float" -> w \in {"i0", "i1", "i2", "i7", "f15", "f10"}
     [] k = "str" -> JsonType(w) = "str"
     [] k = "date" -> w = "ds"                                        \* canonical forms only (statement)
     [] k = "datetime" -> w \in {"dts", "dt0"}
     [] k = "uuid" -> w = "us"
-    [] k = "enums" -> w \in {"m1", "m2"}
-    [] k = "enumi" -> w \in {"i1", "i2"}
+    [] k = "enums" -> w \in {"se", "m1", "m2"}
+    [] k = "enumi" -> w \in {"i0", "i1", "i2"}
     [] k = "none" -> w = "null"
     [] k = "modelM" -> w \in {"objv", "objvw"}
     [] k = "modelN" -> w \in {"objw", "objvw"}
     [] k = "modelS" -> w = "objv"
+    [] k = "modelO" -> JsonType(w) = "dict"
     [] k = "listint" -> w \in {"arr0", "arri"}
     [] k = "listdate" -> w \in {"arr0", "arrd"}
     [] k = "listM" -> w \in {"arr0", "arro"}
